@@ -589,3 +589,40 @@ func VerifMonotonicGroups(ops []VerifGroupOp) []VerifPageGroup {
 	}
 	return verifGroups(g)
 }
+
+// VerifPathProbe: one path-component pattern of a URL, the fields its IsPagingURL reads, and
+// its answer for each probe URL ('1', '0', or 'P' when the call panicked).
+type VerifPathProbe struct {
+	Fields  pattern.VerifPathFields
+	Results string
+}
+
+func VerifPathPatternProbe(u string, probes []string) []VerifPathProbe {
+	url, err := nurl.Parse(u)
+	if err != nil {
+		return nil
+	}
+	var out []VerifPathProbe
+	for _, p := range pattern.PathComponentPagePatternsFromURL(url) {
+		f, ok := pattern.VerifPathPatternFields(p)
+		if !ok {
+			continue
+		}
+		res := make([]byte, len(probes))
+		for i, probe := range probes {
+			res[i] = func() (b byte) {
+				defer func() {
+					if recover() != nil {
+						b = 'P'
+					}
+				}()
+				if p.IsPagingURL(probe) {
+					return '1'
+				}
+				return '0'
+			}()
+		}
+		out = append(out, VerifPathProbe{Fields: f, Results: string(res)})
+	}
+	return out
+}
